@@ -25,7 +25,7 @@ META = {
             'sampler (with rockit.stage.low stubbed by the explored step index): value at d+1 in-step times == refined samples and d^(d+1)/dt^(d+1) == 0, so it is that same polynomial for every t of the step',
     'functions': ['rockit/stage.py:_grid_intg_fine/sampler/_grid_integrator/_grid_control', 'rockit/sampling_method.py:intg_rk/intg_expl_euler (poly_coeff)', 'rockit/direct_collocation.py:poly*S (poly_coeff)',
                   'rockit/multiple_shooting.py, single_shooting.py: poly_coeff bookkeeping'],
-    'bounds': 'free or parametric horizon (numeric horizons: power-basis constants get folded into inexact doubles); MS/SS with rk and expl_euler, DC degree 1..4 radau/legendre; N<=3, M<=2 (thorough M<=3; SingleShooting: at most 2 integrator steps, z3 does not finish the nested terms of 3 steps within 60 s); uniform, geometric, user grids; refine = d+2 <= 6',
+    'bounds': 'free or parametric horizon (numeric horizons: power-basis constants get folded into inexact doubles); MS/SS with rk and expl_euler, DC degree 1..4 radau/legendre; N<=3, M<=2 (thorough M<=3; SingleShooting: at most 2 integrator steps, z3 does not finish the nested terms of 3 steps within 60 s); uniform, geometric, user grids; refine = d+2 <= 6; declared quadrature states: shooting methods with rk / expl_euler, M in {2,3}',
     'outside': 'end-value/through-helper identities for collocation schemes with irrational tables (the power-basis coefficients rockit derives with numpy are rounded doubles, so the exact interpolation property holds only up to rounding; degree, sub-sampling and sampler identities are still checked there); "exact for polynomial true solutions" and convergence in M (consequences of C03, not re-proved); sampler on algebraic states; sol.sampler numeric wrapper; IEEE rounding',
     'assumptions': ['rockit.stage.low (interval lookup, not SX-expandable) is replaced by a stub returning the explored step index; the path condition grid[i] <= t < grid[i+1] is the stated scope of each sampler obligation',
                     'reals for floats', 'markers stand for arbitrary functions'],
@@ -117,6 +117,12 @@ def instances(tier, seed):
         s = Spec(nx=2, nu=2, ode=[nl1(X(1)) * U(0) + t * X(0), X(0) - U(1) * X(1)], note='two controls')
         s.objective = [at_tf(X(0) * X(1))]
         add(spec=fam.with_horizon(s, Hsym[0]), cfg=Cfg(method, N=3, M=2, intg=intg or 'rk', grid=fam.G_UNI, degree=2, scheme='radau'))
+    # a declared quadrature state with an integrand that varies inside the step: its dense output has coefficients of its own
+    for method, intg, M_ in (('MS', 'rk', 2), ('MS', 'expl_euler', 2), ('SS', 'rk', 2), ('MS', 'rk', 3)):
+        s = copy.deepcopy(fam.ode_core()[0])
+        s.quads = [X(0) * X(1) + t * U(0)]
+        s.objective = [at_tf(X(0) * X(1))]
+        add(spec=fam.with_horizon(s, Hsym[0]), cfg=Cfg(method, N=1 if method == 'SS' else 2, M=M_, intg=intg, grid=fam.G_UNI))
     # SingleShooting with sub-steps (one control interval: the nesting stays shallow)
     for intg in ('rk', 'expl_euler'):
         s = copy.deepcopy(fam.ode_core()[0])
@@ -144,6 +150,11 @@ def run(item):
         plan['xref'] = len(outs); outs.append(xr_)
         if spec.nz:
             plan['zref'] = len(outs); outs.append(st.sample(st.z, grid='integrator', refine=r)[1])
+        if spec.quads and cfg.method != 'DC':
+            # declared quadrature states: their own dense output (rockit keeps separate polynomial coefficients for them)
+            qv = ca.vcat(b.qs)
+            plan['qref'] = len(outs); outs.append(st.sample(qv, grid='integrator', refine=r)[1])
+            plan['qint'] = len(outs); outs.append(st.sample(qv, grid='integrator')[1])
         # sampler with the interval lookup stubbed per explored step
         tsym = ca.MX.sym('tq')
         plan['sampler'] = {}
@@ -275,6 +286,38 @@ def run(item):
                     w_tau = lag_weights(nodes, tb.tau[j] * r)
                     P('through-helper', 'P(tau_%d h)[step %d,%d]' % (j, i, s), {dd: sum((ys[dd][m] * cst[dd](w_tau[m]) for m in range(1, d + 1)), ys[dd][0] * cst[dd](w_tau[0])) for dd in doms},
                       {dd: trs[dd].Xr[i * cfg.degree + j][s] for dd in doms})
+    # 5c. declared quadrature states (shooting methods): the refined samples of q lie on ONE polynomial of degree <= d per step, which starts at the
+    # value reported on the integrator grid, has the integrand as initial slope and ends at the next integrator-grid value (the scheme's quadrature)
+    if 'qref' in plan:
+        nq = len(spec.quads)
+        qref = {dd: ([wrapd(dd, v) for v in ex[dd][plan['qref']]] if dd != 'z' else list(fq[plan['qref']])) for dd in doms}
+        qint = {dd: ([wrapd(dd, v) for v in ex[dd][plan['qint']]] if dd != 'z' else list(fq[plan['qint']])) for dd in doms}
+        for i in range(nsteps):
+            k = i // M
+            for a_ in range(nq):
+                ys = {dd: [qref[dd][(i * r + j) * nq + a_] for j in range(r)] for dd in doms}
+                P('quad-subsample', 'qref[%d*r][%d]==q_integrator[%d]' % (i, a_, i), {dd: ys[dd][0] for dd in doms}, {dd: qint[dd][i * nq + a_] for dd in doms})
+                P('quad-degree', 'findiff^%d q[step %d,%d]' % (d + 1, i, a_), {dd: sum((ys[dd][j] * cst[dd](w_fd[j]) for j in range(1, d + 2)), ys[dd][0] * cst[dd](w_fd[0])) for dd in doms},
+                  {dd: cst[dd](0) for dd in doms})
+
+                def qend(dd):
+                    tr = trs[dd]
+                    h = (tr.tc[k + 1] - tr.tc[k]) / tr.dom.const(M)
+                    _, qn = step(tr, k, tr.Xi[i], tr.ti[i], h, cfg.intg, quads=spec.quads)
+                    return qint[dd][i * nq + a_] + qn[a_]
+                P('quad-end-value', 'Pq(h)[step %d,%d]' % (i, a_), {dd: sum((ys[dd][j] * cst[dd](w_end[j]) for j in range(1, d + 1)), ys[dd][0] * cst[dd](w_end[0])) for dd in doms},
+                  {dd: qend(dd) for dd in doms})
+                P('quad-next-node', 'q_integrator[%d][%d] == q_integrator[%d] + quadrature of step %d' % (i + 1, a_, i, i), {dd: qint[dd][(i + 1) * nq + a_] for dd in doms}, {dd: qend(dd) for dd in doms})
+                if i == nsteps - 1:
+                    P('quad-final-entry', 'qref[last][%d]==q at the final node' % a_, {dd: qref[dd][nsteps * r * nq + a_] for dd in doms}, {dd: qend(dd) for dd in doms})
+
+                def qslope(dd):
+                    tr = trs[dd]
+                    h = (tr.tc[k + 1] - tr.tc[k]) / tr.dom.const(M)
+                    lf = leaf_at(tr, k, tr.Xi[i], tr.ti[i], h)
+                    return ev(spec.quads[a_], lf, tr.dom) * h / tr.dom.const(r)
+                P('quad-initial-slope', "Pq'(0)*delta[step %d,%d]" % (i, a_), {dd: sum((ys[dd][j] * cst[dd](w_slope[j]) for j in range(1, d + 1)), ys[dd][0] * cst[dd](w_slope[0])) for dd in doms},
+                  {dd: qslope(dd) for dd in doms})
     # 5b. algebraic variables: the refined samples lie on the polynomial (degree d-1) through the collocation values
     if spec.nz and cfg.method == 'DC' and fam.rational_tables(cfg.degree, cfg.scheme) and 'zref' in plan:
         zref = {dd: ([wrapd(dd, v) for v in ex[dd][plan['zref']]] if dd != 'z' else list(fq[plan['zref']])) for dd in doms}
